@@ -34,6 +34,21 @@ func cronOf(sm any) *cron.Cron {
 	panic("c11 harness: the schedule manager has no *cron.Cron field")
 }
 
+// waitCronStopped waits (bounded) until the runner's `running` flag is down: cron.Stop() hands
+// the stop request to the run loop and only then clears the flag; Entries() on a runner whose
+// loop is gone while the flag is still up would block for ever.
+func waitCronStopped(c *cron.Cron, limit time.Duration) {
+	f := reflect.ValueOf(c).Elem().FieldByName("running")
+	if !f.IsValid() || f.Kind() != reflect.Bool || !f.CanAddr() {
+		return
+	}
+	running := (*bool)(unsafe.Pointer(f.UnsafeAddr()))
+	deadline := time.Now().Add(limit)
+	for *running && time.Now().Before(deadline) {
+		time.Sleep(50 * time.Microsecond)
+	}
+}
+
 // jobSet: the job goroutines started by the harness and not yet returned.
 type jobSet struct {
 	mu     sync.Mutex
